@@ -1,6 +1,6 @@
 """C19 helpers: contract runner with pointer-valued results, parameter set-ups, summaries of the libc
 string primitives (memchr, memcmp, strchr, strcmp) and of igris_memmem."""
-from lin import Lin
+from lin import Lin, _L
 from absval import IntVal, PtrVal, CondVal, NULL, TOP, mk_const
 from contracts import ContractRun, FnSpec, StructSpec
 from irlib import AnalysisBroken
@@ -16,6 +16,7 @@ class Run19(ContractRun):
     def __init__(self, interp, struct_specs):
         ContractRun.__init__(self, interp, struct_specs)
         self.argobj = {}       # parameter index -> object id (filled by the set-up callbacks)
+        self.bufobj = None     # buffer a struct under analysis points into (set-up callback)
 
     def check_return(self, fn, spec, env, struct_params, T, rv, posts=None):
         saved = env.names
@@ -32,6 +33,16 @@ class Run19(ContractRun):
                     env.bind('ret_off', rv.off)
                     for n, oid in self.argobj.items():
                         env.bind('ret_in_arg%d' % n, Lin(1 if oid == rv.obj else 0))
+            for (pname, so, sspec, fs, sname) in struct_params:
+                if sspec is None:
+                    continue
+                for m in self.mod.flat_fields(sname):
+                    if m['ty']['k'] != 'ptr':
+                        continue
+                    v = T.mem.get((so.id, m['off'], m['ty']['size']))
+                    if isinstance(v, PtrVal) and not v.is_null:
+                        env.bind('%s_post_off' % m['name'], v.off)
+                        env.bind('%s_post_in_buf' % m['name'], Lin(1 if v.obj == self.bufobj else 0))
             for n, oid in self.argobj.items():
                 o = T.objs.get(oid)
                 if o is not None and o.info.get('cstr_len') is not None:
@@ -66,17 +77,58 @@ def sized_params(*pairs, elem=1, nullable=False):
     return setup
 
 
-def cstr_args(*idx, maxlen=1 << 30, extra=0):
+def cstr_args(*idx, maxlen=1 << 30, extra=0, inside=()):
     """the pointer parameters at the given positions are NUL-terminated strings of symbolic length
-    len_argN held in objects of exactly len+1(+extra) bytes"""
+    len_argN held in objects of exactly len+1(+extra) bytes; parameters listed in 'inside' point to an
+    arbitrary position pos_argN (0 <= pos <= len) of their string instead of its first character"""
     def setup(run, st, env, pnames, args, sps):
         for i in idx:
             n = st.fresh_int(64, False, 'len_arg%d' % i)
             st.cons.add_le(n.u, maxlen)
             o = st.new_obj('param', n.u + 1 + extra, 'arg%d' % i,
                            {'desc': 'C string arg%d' % i, 'cstr_len': n.u})
-            args[i] = PtrVal(o.id, Lin(0))
+            off = Lin(0)
+            if i in inside:
+                pos = st.fresh_int(64, False, 'pos_arg%d' % i)
+                st.cons.add_le(pos.u, n.u)
+                off = pos.u
+                env.bind('pos_arg%d' % i, pos.u)
+            args[i] = PtrVal(o.id, off)
             env.bind('len_arg%d' % i, n.u)
+            if hasattr(run, 'argobj'):
+                run.argobj[i] = o.id
+    return setup
+
+
+def fixed_args(*pairs):
+    """(pointer index, byte size): out-parameters of a fixed size"""
+    def setup(run, st, env, pnames, args, sps):
+        for (i, size) in pairs:
+            o = st.new_obj('param', Lin(size), 'arg%d' % i, {'desc': 'out-parameter arg%d' % i})
+            args[i] = PtrVal(o.id, Lin(0))
+            if hasattr(run, 'argobj'):
+                run.argobj[i] = o.id
+    return setup
+
+
+def const_table_args(*idx):
+    """the pointer parameters at these positions point to caller-owned tables of unknown extent that the
+    function only reads: two integer loads from the same (symbolic) offset yield the same value"""
+    def content(interp, st, o, off, ty):
+        if ty.get('k') != 'int' or ty.get('bits', 0) <= 1:
+            return None
+        key = ('tbl', o.id, _L(off).key(), ty['bits'])
+        v = st.conv.get(key)
+        if v is None:
+            v = st.fresh_int(ty['bits'], True, 'tbl')
+            st.conv[key] = v
+        return v
+
+    def setup(run, st, env, pnames, args, sps):
+        for i in idx:
+            o = st.new_obj('param', None, 'arg%d' % i, {'desc': 'table arg%d' % i, 'content': content,
+                                                         'content_var': content})
+            args[i] = PtrVal(o.id, Lin(0))
             if hasattr(run, 'argobj'):
                 run.argobj[i] = o.id
     return setup
